@@ -163,6 +163,70 @@ def one(ctx: Ctx, cs, pname=None, **over):
         ctx.sample({'case_seed': cs, 'text': x, 'bekern': kpx.dumps(d, encoding=kpx.Enc.bEkern)[0]})
 
 
+def damaged(ctx: Ctx, cs):
+    """A document with malformed **kern cells is a document too ("for every document"): a cell the importer could not read is a
+    non-note cell and reads the same - the text as written - in all six encodings."""
+    import random
+    from .c12 import malformed
+    from ..gen.doc import Cell, KERN_LIKE
+    doc, pname = make_doc(cs, None)
+    rng = random.Random(cs ^ 0xD04)
+    doc.infos()
+    cand = [(li, col) for li, ln in enumerate(doc.lines) if ln.kind == 'data' for col, c in enumerate(ln.cells)
+            if doc.headers[c.spine] in KERN_LIKE]
+    if not cand:
+        return
+    texts = []
+    for (li, col) in rng.sample(cand, min(len(cand), rng.randint(1, 3))):
+        t, cl = malformed(rng)
+        while cl == 'garbage-suffix':
+            t, cl = malformed(rng)
+        sp = doc.lines[li].cells[col].spine
+        doc.lines[li].cells[col] = Cell('error', t, spine=sp)
+        texts.append(t)
+    doc._infos = None
+    x = doc.text(0)
+    d, e, exc = kpx.loads(x)
+    ctx.ev()
+    ctx.mon('damaged_documents')
+    if exc is not None or len(e) != len(texts):
+        ctx.mon('damaged_precondition_failed (C12 decides)')
+        return
+    case = {'case_seed': cs, 'profile': pname, 'text': x, 'damaged': texts}
+    views = {}
+    for name, enc in kpx.ENC_BY_NAME.items():
+        ctx.ev()
+        t_, err = kpx.dumps(d, encoding=enc)
+        if err is not None:
+            ctx.mon(f'damaged_document_export_raised:{name}:{type(err).__name__}')
+            if name not in ('akern', 'aekern'):
+                ctx.violation('export-raises', f'[damaged] {name} export raised {type(err).__name__}: {err}', case)
+            continue
+        views[name] = kpx.grid(t_)
+    ref = views.get('kern')
+    if ref is None:
+        return
+    want = Counter(texts)
+    ref_count = Counter(c for row in ref for c in row if c in want)
+    for name, g in views.items():
+        ctx.mon('damaged_views_compared')
+        got = Counter(c for row in g for c in row if c in want)
+        if got != ref_count or any(got[t] < want[t] for t in want):
+            ctx.violation('error-cell-differs', f'[damaged] malformed cells {dict(want)} occur {dict(got)} times as a cell of the {name} '
+                          f'export and {dict(ref_count)} times in the kern export (a non-note cell is identical in the six encodings)', case)
+            continue
+        if [len(r) for r in g] == [len(r) for r in ref]:
+            for ri, (ra, rb) in enumerate(zip(ref, g)):
+                for ci, (a, b) in enumerate(zip(ra, rb)):
+                    if (a in want) != (b in want) or (a in want and a != b):
+                        ctx.violation('error-cell-differs', f'[damaged] line {ri + 1} column {ci}: {a!r} in kern, {b!r} in {name}', case)
+                        break
+                else:
+                    continue
+                break
+            ctx.mon('damaged_cells_compared_in_place', sum(ref_count.values()))
+
+
 def relations(ctx, d, doc, rows, kind_at, clef_ok, selections, case0, label):
     for sname, sel in selections:
         case = dict(case0, selection=sname)
@@ -319,8 +383,10 @@ def run(ctx: Ctx):
                 'note; distinct by source text.')
     ctx.assumptions = ['agnostic exports may raise ValueError when a note has no clef in force (decided from the abstract document)']
     n = 90 if ctx.tier == 'quick' else 700
-    for cs in cases(ctx, 'c04', n):
+    for k, cs in enumerate(cases(ctx, 'c04', n)):
         one(ctx, cs, p_chord=0.3)
+        if k % 3 == 0:
+            damaged(ctx, cs ^ 0x5EED)
     ctx.extra['tokenizer_x_token_class'] = dict(_factory_log)
     need = [f'{e}:ChordToken' for e in kpx.ENC_BY_NAME] + [f'{e}:NoteRestToken' for e in kpx.ENC_BY_NAME]
     for k in need:
@@ -332,5 +398,9 @@ def run(ctx: Ctx):
 
 def replay(ctx, w):
     case = w.get('case', w)
+    if 'damaged' in case:
+        damaged(ctx, case['case_seed'])
+        print(case.get('text', ''))
+        return
     one(ctx, case['case_seed'], case.get('profile'), **case.get('over', {}))
     print(case.get('text', ''))
